@@ -1,4 +1,200 @@
-//! c12 ops (filled in below).
-pub fn dispatch(_op: &str, _args: &[String]) -> bool {
-    false
+//! C12 ops.
+//!   node-paint   payload `opts\tdoc\tmax_nodes\tseed\tmargin`
+//!                For (a sample of) the nodes of the tree: paint the node alone, placed by the PRODUCT of its
+//!                ancestors' `transform()`s (not by the reported abs_transform), and compare the set of
+//!                non-transparent pixels with the reported absolute box (groups: abs layer box; paths, text,
+//!                images: abs stroke box) grown by `margin` pixels.
+//!                -> {"nodes":n,"checked":k,"skipped":s,"painted":p,"bad":[{...}],"max_excess":e}
+use crate::dump::{esc, num};
+use crate::util::*;
+use tiny_skia::Transform;
+
+struct Item<'a> {
+    node: &'a usvg::Node,
+    parent_true: Transform, // product of the ancestors' transforms (from Group::transform())
+    path: String,
+}
+
+fn collect<'a>(g: &'a usvg::Group, parent_true: Transform, path: &str, out: &mut Vec<Item<'a>>) {
+    for (i, n) in g.children().iter().enumerate() {
+        let p = format!("{}/{}", path, i);
+        out.push(Item { node: n, parent_true, path: p.clone() });
+        if let usvg::Node::Group(ref cg) = n {
+            collect(cg, parent_true.pre_concat(cg.transform()), &p, out);
+        }
+    }
+}
+
+/// the node is, or contains, a path with a dash pattern and non-butt caps
+fn has_dash_caps(n: &usvg::Node) -> bool {
+    match n {
+        usvg::Node::Path(ref p) => match p.stroke() {
+            Some(s) => s.dasharray().is_some() && s.linecap() != usvg::LineCap::Butt,
+            None => false,
+        },
+        usvg::Node::Group(ref g) => g.children().iter().any(has_dash_caps),
+        _ => false,
+    }
+}
+
+fn max_stroke_width(n: &usvg::Node) -> f32 {
+    match n {
+        usvg::Node::Path(ref p) => p.stroke().map(|s| s.width().get()).unwrap_or(0.0),
+        usvg::Node::Group(ref g) => g.children().iter().map(max_stroke_width).fold(0.0, f32::max),
+        _ => 0.0,
+    }
+}
+
+fn kind(n: &usvg::Node) -> &'static str {
+    match n {
+        usvg::Node::Group(_) => "g",
+        usvg::Node::Path(_) => "path",
+        usvg::Node::Image(_) => "image",
+        usvg::Node::Text(_) => "text",
+    }
+}
+
+fn op_node_paint(payload: &str) -> String {
+    let f: Vec<&str> = payload.split('\t').collect();
+    if f.len() < 5 {
+        return "{\"error\":\"bad payload\"}".to_string();
+    }
+    let tree = match parse_doc(f[0], f[1]) {
+        Ok(t) => t,
+        Err(e) => return format!("{{\"error\":{}}}", esc(&e)),
+    };
+    let max_nodes: usize = f[2].parse().unwrap_or(10);
+    let mut rng = SplitMix64(f[3].parse().unwrap_or(1));
+    let margin: f32 = f[4].parse().unwrap_or(2.0);
+    let mut items = Vec::new();
+    collect(tree.root(), Transform::identity(), "", &mut items);
+    let total = items.len();
+    // sample without replacement
+    while items.len() > max_nodes {
+        let k = rng.below(items.len() as u64) as usize;
+        items.swap_remove(k);
+    }
+    // canvas: the document canvas plus a border, limited in size
+    const M: f32 = 40.0;
+    let cw = ((tree.size().width().ceil() + 2.0 * M) as u32).clamp(1, 1400);
+    let ch = ((tree.size().height().ceil() + 2.0 * M) as u32).clamp(1, 1400);
+    let mut checked = 0usize;
+    let mut skipped = 0usize;
+    let mut painted_nodes = 0usize;
+    let mut max_excess = 0.0f32;
+    let mut bad: Vec<String> = Vec::new();
+    for it in &items {
+        let node = it.node;
+        let lb = match node.abs_layer_bounding_box() {
+            Some(b) => b,
+            None => {
+                skipped += 1;
+                continue;
+            }
+        };
+        // the transform resvg::render_node will add on its own: translate(-bbox) * parent_ts
+        let parent_ts = match node {
+            usvg::Node::Group(ref g) => g.abs_transform().pre_concat(g.transform().invert().unwrap_or_default()),
+            _ => node.abs_transform(),
+        };
+        let inv = match parent_ts.invert() {
+            Some(t) => t,
+            None => {
+                skipped += 1;
+                continue;
+            }
+        };
+        // wanted: translate(M, M) * parent_true;  given: T * translate(-lb) * parent_ts
+        let wanted = Transform::from_translate(M, M).pre_concat(it.parent_true);
+        let t = wanted.pre_concat(inv).pre_translate(lb.x(), lb.y());
+        let mut pm = match tiny_skia::Pixmap::new(cw, ch) {
+            Some(p) => p,
+            None => return "{\"error\":\"canvas\"}".to_string(),
+        };
+        if resvg::render_node(node, t, &mut pm.as_mut()).is_none() {
+            skipped += 1;
+            continue;
+        }
+        checked += 1;
+        // reported box in canvas coordinates
+        let (bx, by, bw, bh) = match node {
+            usvg::Node::Group(_) => (lb.x(), lb.y(), lb.width(), lb.height()),
+            _ => {
+                let r = node.abs_stroke_bounding_box();
+                (r.x(), r.y(), r.width(), r.height())
+            }
+        };
+        let (x0, y0, x1, y1) = (bx + M - margin, by + M - margin, bx + bw + M + margin, by + bh + M + margin);
+        // an independent, looser bound for leaves: the object-space stroke box mapped by the product transform
+        let loose = match node {
+            usvg::Node::Group(_) => None,
+            _ => node.stroke_bounding_box().transform(it.parent_true),
+        };
+        let mut n_out_loose = 0usize;
+        let data = pm.data();
+        let mut n_out = 0usize;
+        let mut n_painted = 0usize;
+        let (mut px0, mut py0, mut px1, mut py1) = (u32::MAX, u32::MAX, 0u32, 0u32);
+        let mut excess = 0.0f32;
+        for y in 0..ch {
+            let row = (y * cw) as usize * 4;
+            for x in 0..cw {
+                let a = data[row + x as usize * 4 + 3];
+                if a == 0 {
+                    continue;
+                }
+                n_painted += 1;
+                px0 = px0.min(x);
+                py0 = py0.min(y);
+                px1 = px1.max(x);
+                py1 = py1.max(y);
+                // pixel (x, y) covers [x, x+1) x [y, y+1)
+                let ex = (x0 - x as f32).max(x as f32 + 1.0 - x1).max(0.0);
+                let ey = (y0 - y as f32).max(y as f32 + 1.0 - y1).max(0.0);
+                let e = ex.max(ey);
+                if let Some(l) = loose {
+                    if (x as f32 + 1.0) < l.left() + M - margin || (x as f32) > l.right() + M + margin
+                        || (y as f32 + 1.0) < l.top() + M - margin || (y as f32) > l.bottom() + M + margin {
+                        n_out_loose += 1;
+                    }
+                }
+                if e > 0.0 {
+                    n_out += 1;
+                    if e > excess {
+                        excess = e;
+                    }
+                }
+            }
+        }
+        if n_painted > 0 {
+            painted_nodes += 1;
+        }
+        if excess > max_excess {
+            max_excess = excess;
+        }
+        if n_out > 0 && bad.len() < 6 {
+            let true_ts = it.parent_true;
+            bad.push(format!(
+                "{{\"path\":{},\"kind\":\"{}\",\"id\":{},\"box\":[{},{},{},{}],\"painted\":[{},{},{},{}],\"outside\":{},\"outside_loose\":{},\"stroked\":{},\"dash_caps\":{},\"stroke_width\":{},\"excess\":{},\"abs_ts\":[{},{},{},{},{},{}],\"parent_product\":[{},{},{},{},{},{}]}}",
+                esc(&it.path), kind(node), esc(node.id()), num(bx), num(by), num(bw), num(bh),
+                px0 as f32 - M, py0 as f32 - M, px1 as f32 + 1.0 - M, py1 as f32 + 1.0 - M, n_out, if loose.is_some() { n_out_loose as i64 } else { -1 },
+                match node { usvg::Node::Path(ref p) => p.stroke().is_some(), _ => false }, has_dash_caps(node), num(max_stroke_width(node)), num(excess),
+                num(node.abs_transform().sx), num(node.abs_transform().ky), num(node.abs_transform().kx),
+                num(node.abs_transform().sy), num(node.abs_transform().tx), num(node.abs_transform().ty),
+                num(true_ts.sx), num(true_ts.ky), num(true_ts.kx), num(true_ts.sy), num(true_ts.tx), num(true_ts.ty)
+            ));
+        }
+    }
+    format!(
+        "{{\"nodes\":{},\"checked\":{},\"skipped\":{},\"painted\":{},\"max_excess\":{},\"bad\":[{}]}}",
+        total, checked, skipped, painted_nodes, num(max_excess), bad.join(",")
+    )
+}
+
+pub fn dispatch(op: &str, _args: &[String]) -> bool {
+    match op {
+        "node-paint" => run_batch(op_node_paint),
+        _ => return false,
+    }
+    true
 }
